@@ -118,6 +118,30 @@ def well_cost_term(R, rows):
             f'{Q(e("production_well_cost_adjustment_factor")["value"])}) {Q(e("cost_one_production_well")["value"])}')
 
 
+def dh_terms(R):
+    """district-heating runs: network cost and district O&M against Model/Costs.v fed the run's own inputs"""
+    s = R.s
+    P = lambda a: s.p('economics', a)
+    units = s.p('surfaceplant', 'dh_number_of_housing_units')
+    rec = ('{| d_total_provided := %s; d_total := %s; d_piping_provided := %s; d_piping_len := %s; d_road_provided := %s; d_road_len := %s; '
+           'd_area := %s; d_pop_provided := %s; d_pop := %s; d_units_provided := %s; d_units := %s; d_rate := %s |}') % (
+        B(P('dhtotaldistrictnetworkcost')['provided']), Q(P('dhtotaldistrictnetworkcost')['value']),
+        B(P('dhpipinglength')['provided']), Q(P('dhpipinglength')['value']), B(P('dhroadlength')['provided']), Q(P('dhroadlength')['value']),
+        Q(P('dhlandarea')['value']), B(P('dhpopulation')['provided']), Q(P('dhpopulation')['value']),
+        B(units['provided']), Q(units['value']), Q(P('dhpipingcostrate')['value']))
+    tol = qconv.q(TOL)
+    out = [('district-network-cost', f'close {tol} (dh_network_cost {rec}) {Q(P("dhdistrictcost")["value"])}')]
+    if not P('oamtotalfixed')['valid']:
+        demand = s.v('surfaceplant', 'daily_heating_demand', [])
+        out.append(('district-oam', f'close {tol} (dh_oam {B(P("dhoandmcost")["provided"])} {Q(P("dhoandmcost")["value"])} '
+                                    f'{Q(P("dhdistrictcost")["value"])} {Q(sum(demand))} {Q(s.v("surfaceplant", "electricity_cost_to_buy"))}) '
+                                    f'{Q(P("dhdistrictoandmcost")["value"])}'))
+    how = ('total' if P('dhtotaldistrictnetworkcost')['provided'] else 'piping' if P('dhpipinglength')['provided'] else
+           'road' if P('dhroadlength')['provided'] else 'population' if P('dhpopulation')['provided'] else
+           'units' if units['provided'] else 'default')
+    return out, how
+
+
 def gen_inputs(ctx):
     rnd = ctx.rng
     cfgs = configs.grid(ctx, ctx.n(70, 2500))
@@ -127,6 +151,8 @@ def gen_inputs(ctx):
         c = [(k, v) for k, v in c if k not in ('Maximum Drawdown', 'Drawdown Parameter')]
         c += [('Maximum Drawdown', configs.dec(rnd, 0.05, 0.3, 2)), ('Drawdown Parameter', configs.dec(rnd, 0.01, 0.04, 3))]
         cfgs.append(c)
+    for _ in range(ctx.n(6, 60)):   # district heating: every way of obtaining the network cost
+        cfgs.append(configs.synthetic(rnd, enduse=2, plant=7, resmodel=4, life=rnd.choice([5, 10, 20])))
     texts = [('synthetic', runner.params_to_text(c)) for c in cfgs]
     texts += [('example:' + n, t) for n, t in configs.example_texts(slow=not ctx.quick)]
     return texts
@@ -154,6 +180,14 @@ def run_part(ctx, texts, rows):
                 'reported': out}
         terms.append(term)
         owners.append(('roll-up', desc, text, flags if interesting else None))
+        if R.plant == 7 and R.cls == 'Economics' and not R.s.p('economics', 'totalcapcost')['valid']:
+            try:
+                dts, how = dh_terms(R)
+                for stage, t in dts:
+                    terms.append(t)
+                    owners.append((stage, desc, text, ('dh', how, stage)))
+            except KeyError as ex:
+                ctx.note(f'district-heating fields not readable: {ex!r}')
         wt = well_cost_term(R, rows)
         if wt:
             terms.append(wt)
